@@ -82,6 +82,10 @@ def one(ctx: Ctx, cs, pname, over, core=True):
                     k = 'recursion-limit'
                 ctx.violation(k, f'from_measure={a} to_measure={b} (M={M}) raised {type(err).__name__}: {err}', c2)
                 continue
+            if out == '' and not any(a <= m <= b for m in sc.measure):
+                # no **kern cell exists in these measures (the exported spines ended earlier): an empty export is all there is
+                ctx.mon('vacuous_ranges (no exported spine alive)')
+                continue
             probs = H.validate(out)
             ctx.mon('validator_runs')
             if probs:
